@@ -70,6 +70,10 @@ pub struct Program {
     pub setup: Vec<Op>,
     /// one op list per concurrent client (sequential scenario: exactly one client)
     pub clients: Vec<Vec<Op>>,
+    /// concurrent scenario: a `snapshot <reclaim>` is requested and released to run (on the node's
+    /// snapshot thread) while the clients execute
+    #[serde(default)]
+    pub background_snapshot: Option<bool>,
 }
 
 const KEYS: [&str; 2] = ["a", "b"];
@@ -102,7 +106,7 @@ fn gen_sequential(rng: &mut Rng) -> Program {
         };
         ops.push(op);
     }
-    Program { setup: vec![], clients: vec![ops] }
+    Program { setup: vec![], clients: vec![ops], background_snapshot: None }
 }
 
 fn gen_concurrent(rng: &mut Rng) -> Program {
@@ -124,6 +128,17 @@ fn gen_concurrent(rng: &mut Rng) -> Program {
             base[k] = Some(sets as i32 - 1);
         }
     }
+    // half of the cases: the initial keys are persisted by a completed snapshot (a remove then leaves a
+    // tombstone, a write goes through the persisted-key paths); sometimes one of them is removed again
+    if !setup.is_empty() && rng.chance(1, 2) {
+        setup.push(Op::Snap { reclaim: false });
+        if rng.chance(1, 3) {
+            let k = rng.below(nkeys as u64) as usize;
+            setup.push(Op::Remove { key: KEYS[k].to_string() });
+            base[k] = None;
+        }
+    }
+    let background_snapshot = if rng.chance(1, 4) { Some(rng.chance(1, 2)) } else { None };
     let mut clients = Vec::new();
     for _c in 0..nclients {
         let n = rng.range(1, 3) as usize;
@@ -153,7 +168,7 @@ fn gen_concurrent(rng: &mut Rng) -> Program {
         }
         clients.push(ops);
     }
-    Program { setup, clients }
+    Program { setup, clients, background_snapshot }
 }
 
 #[derive(Clone, Debug)]
@@ -184,6 +199,8 @@ struct Outcome {
     /// watcher notifications in arrival order: (key, version, value) / removed
     notes: Vec<String>,
     finals: Vec<(String, Option<(i32, String)>)>,
+    /// state of every key when the concurrent phase starts (None = absent)
+    inits: Vec<Option<(i32, String)>>,
     setup_ok: bool,
     seq_violations: Vec<Violation>,
 }
@@ -191,7 +208,7 @@ struct Outcome {
 fn execute(prog: Program, sequential: bool) -> Outcome {
     let w = World::new(1);
     w.boot(0, "");
-    let mut out = Outcome { recs: vec![], notes: vec![], finals: vec![], setup_ok: false, seq_violations: vec![] };
+    let mut out = Outcome { recs: vec![], notes: vec![], finals: vec![], inits: vec![], setup_ok: false, seq_violations: vec![] };
     if !w.wait_primary(0, 5_000) {
         return out;
     }
@@ -206,6 +223,16 @@ fn execute(prog: Program, sequential: bool) -> Outcome {
     admin.exec("use-db d tok");
     for op in prog.setup.iter() {
         admin.exec(&op.line(None));
+        if let Op::Snap { .. } = op {
+            if !w.declutter_tick(0, 10_000) {
+                return out;
+            }
+        }
+    }
+    for k in KEYS.iter() {
+        let vv = parse_value_version(&admin.exec(&format!("get-safe {}", k)).msgs);
+        let present = admin.exec("keys").msgs.iter().any(|m| m.trim_end().trim_start_matches("keys ").split(',').any(|x| x == *k));
+        out.inits.push(if present { vv } else { None });
     }
     // observer watching every key
     let mut obs = Session::new(&dbs);
@@ -220,6 +247,10 @@ fn execute(prog: Program, sequential: bool) -> Outcome {
         return out;
     }
 
+    if let Some(reclaim) = prog.background_snapshot {
+        admin.exec(&format!("snapshot {}", reclaim));
+        w.declutter_kick(0);
+    }
     let seqno = StdArc::new(std::sync::atomic::AtomicU64::new(0));
     let recs: StdArc<StdMutex<Vec<Rec>>> = StdArc::new(StdMutex::new(Vec::new()));
     let mut handles = Vec::new();
@@ -241,6 +272,10 @@ fn execute(prog: Program, sequential: bool) -> Outcome {
     }
     for h in handles {
         let _ = h.join();
+    }
+    if prog.background_snapshot.is_some() {
+        // let the background snapshot finish (it purges tombstones at its end)
+        sleep_ms(50);
     }
     out.recs = recs.lock().unwrap().clone();
     out.notes = obs.drain();
@@ -541,16 +576,10 @@ fn check_concurrent(prog: &Program, out: &Outcome) -> Vec<Violation> {
         if recs.is_empty() {
             continue;
         }
-        // initial state from the setup (plain sets: version = count-1)
-        let sets: Vec<&Op> = prog.setup.iter().filter(|o| o.key() == *key).collect();
-        let init = match sets.last() {
-            Some(Op::Set { val, .. }) => KeyState {
-                exists: true,
-                value: val.clone(),
-                version: Some(sets.len() as i32 - 1),
-                maxv: Some(sets.len() as i32 - 1),
-            },
-            _ => KeyState { exists: false, value: String::new(), version: None, maxv: None },
+        // initial state as observed when the concurrent phase started
+        let init = match out.inits.get(ki).cloned().flatten() {
+            Some((ver, val)) => KeyState { exists: true, value: val, version: Some(ver), maxv: Some(ver) },
+            None => KeyState { exists: false, value: String::new(), version: None, maxv: None },
         };
         let fin = &out.finals[ki].1;
         let kinds = {
@@ -634,7 +663,7 @@ impl Property for C02 {
         (300_000, 6_000_000)
     }
     fn rule(&self) -> &'static str {
-        "concurrent: 2-3 direct sessions x 1-3 ops of {set,set-safe v,increment,get-safe,remove} on 1-2 keys of a strategy-none database on a node booted by the real start_db, every lock/atomic a preemption point; sequential: 2-12 ops with version arguments {-1,cur-2,cur-1,cur,cur+1,large}. A case is non-trivial when at least two clients' operations on one key overlapped in time (concurrent) or a versioned write hit an existing key (sequential); distinct = distinct (program, task-switch sequence) hash."
+        "concurrent: 2-3 direct sessions x 1-3 ops of {set,set-safe v,increment,get-safe,remove} on 1-2 keys of a strategy-none database on a node booted by the real start_db, every lock/atomic a preemption point; in half of the cases the initial keys were persisted by a completed snapshot (and one may have been removed again: tombstone), in a quarter a `snapshot <reclaim>` is released to run on the node's snapshot thread while the clients execute; sequential: 2-12 ops with version arguments {-1,cur-2,cur-1,cur,cur+1,large}. A case is non-trivial when at least two clients' operations on one key overlapped in time (concurrent) or a versioned write hit an existing key (sequential); distinct = distinct (program, task-switch sequence) hash."
     }
     fn assumptions(&self) -> Vec<String> {
         vec![
